@@ -76,7 +76,12 @@ META = {
 # development-only entry: all pool concurrency drivers without race detection
 CHECKS['SCHED'] = pool('dev')
 
-CHECKS['C10'] = dict(module='grpcgcp', pkg='grpcgcp', harness='grpcgcp',
-                     instrument=[{'pkg': 'grpcgcp', 'vgrpc': 'gcp_multiendpoint.go', 'access': True}, {'pkg': 'grpcgcp/multiendpoint', 'access': True}], level='model_checking',
-                     workers={'quick': 16, 'thorough': 16}, deadline_s={'quick': 300, 'thorough': 1500},
-                     rule='every interleaving within the preemption bound of the concurrency drivers, each checked by a vector-clock race detector over all instrumented field/map accesses; non-trivial = distinct end states of executions with at least two threads')
+_C10_RULE = 'every interleaving within the preemption bound of the concurrency drivers, each checked by a vector-clock race detector over all instrumented field/map accesses; non-trivial = distinct end states of executions with at least two threads'
+CHECKS['C10'] = dict(level='model_checking', rule=_C10_RULE, module='grpcgcp', pkg='grpcgcp',
+                     workers={'quick': 12, 'thorough': 12}, deadline_s={'quick': 300, 'thorough': 1500},
+                     parts=[
+                         dict(module='grpcgcp', pkg='grpcgcp', harness='grpcgcp', workers={'quick': 12, 'thorough': 12},
+                              instrument=[{'pkg': 'grpcgcp', 'vgrpc': 'gcp_multiendpoint.go', 'access': True}, {'pkg': 'grpcgcp/multiendpoint', 'access': True}]),
+                         dict(module='grpcgcp', pkg='grpcgcp/multiendpoint', harness='multiendpoint', workers={'quick': 4, 'thorough': 4},
+                              instrument=[{'pkg': 'grpcgcp/multiendpoint', 'access': True}]),
+                     ])
